@@ -402,9 +402,9 @@ def check(rep: Report, tier: str, seed: int) -> None:
     q = tier == "quick"
     corr_noise(rep, rng, 300 if q else 5000, drv)
     corr_choices(rep, rng, 1500 if q else 50000, drv)
-    jump_tape(rep, rng, 12 if q else 300, drv)
-    drift_oracle(rep, rng, 3 if q else 60)
-    average_oracle(rep, rng, 24 if q else 600, 4 if q else 10)
+    jump_tape(rep, rng, 8 if q else 300, drv)
+    drift_oracle(rep, rng, 2 if q else 60)
+    average_oracle(rep, rng, 12 if q else 600, 3 if q else 10)
     if rep.broken and not rep.failing:
         # deeper search on the real code only
         jump_tape(rep, rng, 60 if q else 600, drv)
